@@ -121,6 +121,9 @@ var violations = []violation{
 			return false
 		}
 		delete(w, q.Problem.Criteria[0].Id)
+		// weights of the heuristics are looked up lazily (at evaluation / ranking time): a bias that omits the
+		// criterion first hides the violation (registered finding lazy-missing-weight) — keep the injection clean
+		delete(b, "biases")
 		return true
 	}},
 	{"missing-weights", func(r *Rng, b J, q *Req) bool {
@@ -553,6 +556,21 @@ func init() {
 				send(Meta{Case: c, Stage: "violation", Class: "lazy-bias-props", Input: J{"violation": "ratio and ordering invalid on a bias with applyProbability 0", "request": b}, Key: "lazy" + string(js)},
 					js, 400, "constraint violated inside the props of a bias that does not fire, request answered with a ranking")
 				o.count("violation:lazy-bias-props")
+			}
+			if c%7 == 0 { // known finding: a missing weight goes unnoticed when a bias omits that criterion first
+				for seed := 0; seed < 12; seed++ {
+					lb := J{"preferenceFunction": "majorityHeuristic", "criteria": []interface{}{J{"id": "c1", "type": "gain"}, J{"id": "c0", "type": "gain"}},
+						"knownAlternatives": []interface{}{J{"id": "a", "criteria": J{"c0": 1, "c1": 2}}, J{"id": "b", "criteria": J{"c0": 2, "c1": 1}}},
+						"choseToMake":       []string{"a", "b"}, "methodParameters": J{"weights": J{"c1": 1}},
+						"biases": []interface{}{J{"name": "criteriaOmission", "props": J{"ratio": 0.5, "ordering": "random", "randomSeed": seed}}}}
+					js, _ := json.Marshal(lb)
+					if st, _, err := s.post(js); err == nil && st == 200 {
+						send(Meta{Case: c, Stage: "violation", Class: "lazy-missing-weight", Input: J{"violation": "weight of c0 missing; criteriaOmission (random ordering) omits c0 before any weight is looked up", "request": lb}, Key: "lazyw" + string(js)},
+							js, 400, "a missing weight was not rejected because a bias omitted the criterion before the weight was looked up")
+						o.count("violation:lazy-missing-weight")
+						break
+					}
+				}
 			}
 			if c%4 == 0 {
 				for _, wb := range weirdBodies(r, q) {
